@@ -3,7 +3,9 @@
 (* construct, at depth 1 and 2.                                             *)
 EXTENDS PT_Dialect, Json
 Elements == {"quoted-names", "placeholder", "boolean", "array", "interval", "pagination", "groupby-alias", "string-value", "alias", "backslash-string", "json-value", "user-parameter"}
-Constructs == {"top", "subquery-from", "subquery-join", "subquery-in", "subquery-select", "cte", "setop-base", "setop-operand", "insert-select", "create-as"}
+Constructs == {"top", "subquery-from", "subquery-join", "subquery-in", "subquery-select", "cte", "setop-base", "setop-operand", "insert-select", "create-as",
+               \* a select as an operand of a term of the outer statement: function argument, comparison operand, CASE result
+               "function-arg", "function-arg-orderby", "cmp-operand", "case-result"}
 VARIABLES elem, c1, c2
 Init == elem \in Elements /\ c1 \in Constructs /\ c2 \in Constructs \cup {"none"}
 Next == UNCHANGED <<elem, c1, c2>>
